@@ -193,6 +193,8 @@ func tScalarType(ty string) reflect.Type {
 		return reflect.TypeOf("")
 	case "STRUCT":
 		return tStructType(sub1Layout)
+	case "STRUCTP":
+		return reflect.PointerTo(tStructType(sub1Layout))
 	}
 	panic("tScalarType " + ty)
 }
@@ -252,6 +254,11 @@ func tStructType(layout []tField) reflect.Type {
 func (l tlift) elemValue(ty string, v tVal) reflect.Value {
 	if ty == "STRUCT" {
 		return l.logicalStructValue(sub1Layout, v)
+	}
+	if ty == "STRUCTP" {
+		p := reflect.New(tStructType(sub1Layout))
+		p.Elem().Set(l.logicalStructValue(sub1Layout, v))
+		return p
 	}
 	return reflect.ValueOf(l.scalar(ty, v.V))
 }
@@ -326,6 +333,12 @@ func tTreeGo(layout []tField, s reflect.Value) string {
 func tElemTreeGo(ty string, v reflect.Value) string {
 	if ty == "STRUCT" {
 		return tTreeGo(sub1Layout, v)
+	}
+	if ty == "STRUCTP" {
+		if v.IsNil() {
+			return "nil"
+		}
+		return "&" + tTreeGo(sub1Layout, v.Elem())
 	}
 	switch x := v.Interface().(type) {
 	case float64:
